@@ -258,6 +258,127 @@ pub fn dup(size: usize, out: &mut Out) {
     }
 }
 
+/// Coinciding expansions *through a parameter*, next to a sibling that differs only in the parameter's name, constraint or
+/// kind at that position: the second delete of the repeated route comes back to a node where the named child is gone
+/// already (tenth round, C09-g: "a single child of that kind must be the one").
+pub fn dupsib(size: usize, out: &mut Out) {
+    let heads = [("((/x))", ""), ("(/x)(/x)", "/x"), ("/q((/x))", "/q"), ("((/x)(/x))", "")];
+    let pars = ["{n}", "{n:alpha}", "{*n}", "{*n:alpha}"];
+    let sibs = ["{m}", "{n:even}", "{m:alpha}", "{*m}", "{*n:even}", "{*m:alpha}", "{n}", "{*n}"];
+    let tails = ["", "/e", ".e", "/e/{*r}"];
+    let paths = all_strings(&["/", "x", "e", ".", "q"], 4 + size);
+    for (h, sibhead) in heads {
+        for par in pars {
+            for sib in sibs {
+                for tail in tails {
+                    if par == sib || !out.mine() {
+                        continue;
+                    }
+                    let tpl = format!("{h}/{par}{tail}");
+                    let other = format!("{sibhead}/{sib}{tail}");
+                    for order in 0..2 {
+                        out.reset();
+                        out.new_router(0, KEYS);
+                        if order == 0 {
+                            out.insert(0, &other, 1);
+                            out.insert(0, &tpl, 2);
+                        } else {
+                            out.insert(0, &tpl, 2);
+                            out.insert(0, &other, 1);
+                        }
+                        out.display(0);
+                        for p in paths.iter().take(120) {
+                            out.search(0, p);
+                        }
+                        out.op("clone 0 1".to_owned());
+                        out.delete(0, &tpl);
+                        out.display(0);
+                        for p in paths.iter().take(120) {
+                            out.search(0, p);
+                        }
+                        out.delete(0, &other);
+                        out.display(0);
+                        out.delete(1, &other);
+                        out.delete(1, &tpl);
+                        out.display(1);
+                    }
+                }
+            }
+        }
+    }
+}
+
+/// Rank fields of grouped templates with multi-byte text: the `cells` shape where the competing continuations contain
+/// characters of two and three bytes, so that byte length, character count and the length of the whole template all
+/// differ (tenth round, C04-f: `length` counted in characters for shared data only). Every template of a set is grouped
+/// in one variant and group-free in the other; the two must rank alike.
+pub fn grouprank(size: usize, out: &mut Out) {
+    let params: &[&str] = if size >= 2 { &["{a}", "{*a:even}", "{*a}", "{a:nota}"] } else { &["{a}", "{*a:even}", "{*a}"] };
+    let seps = [".", "-", "/"];
+    // "..{b}" / "{b}/{bb}": a literal "/.." next to a rival one level deeper (tenth round, C03-g: a word-at-a-time slash
+    // counter that also counts '.' after '/')
+    let all_conts = ["éé", "é", "{b}", "..{b}", "{b}/{bb}", "{b}.é", "ab", "abcd", "{*v}", "日", "abc", "{b}/é", "éa", "{bb}", "日{b}"];
+    let conts = &all_conts[..if size >= 2 { all_conts.len() } else { 10 }];
+    let toks = ["x", "éé", "é", "ab", "日", "..c"];
+    let pre = "/";
+    for &par in params {
+        for sep in seps {
+            for i in 0..conts.len() {
+                for j in i + 1..conts.len() {
+                    for variant in 0..2 {
+                        if !out.mine() {
+                            continue;
+                        }
+                        out.reset();
+                        out.new_router(0, KEYS);
+                        let g = |on: bool| if on { "(/k)" } else { "" };
+                        let t1 = format!("{pre}{par}{sep}{}{}", conts[i], g(variant != 1));
+                        let t2 = format!("{pre}{par}{sep}{}{}", conts[j], g(variant != 0));
+                        out.insert(0, &t1, 1);
+                        out.insert(0, &t2, 2);
+                        out.insert(0, &format!("{pre}{par}(/q)"), 3);
+                        out.display(0);
+                        for n in 1..=3usize {
+                            let mut idx = vec![0usize; n];
+                            loop {
+                                // quick tier: three-token paths only behind the plain token
+                                if n == 3 && size < 2 && idx[0] != 0 {
+                                    idx[0] = toks.len() - 1;
+                                }
+                                for joins in 0..(1u32 << (n - 1)) {
+                                    for tail in ["", "/k"] {
+                                        let mut p = String::from(pre);
+                                        for (k, t) in idx.iter().enumerate() {
+                                            if k > 0 {
+                                                p.push_str(if joins >> (k - 1) & 1 == 1 { "/" } else { sep });
+                                            }
+                                            p.push_str(toks[*t]);
+                                        }
+                                        p.push_str(tail);
+                                        out.search(0, &p);
+                                    }
+                                }
+                                let mut i = 0;
+                                while i < n {
+                                    idx[i] += 1;
+                                    if idx[i] < toks.len() {
+                                        break;
+                                    }
+                                    idx[i] = 0;
+                                    i += 1;
+                                }
+                                if i == n {
+                                    break;
+                                }
+                            }
+                        }
+                    }
+                }
+            }
+        }
+    }
+}
+
 /// All insertion orders of small subsets of the shape list, each with an insert/delete detour at every position:
 /// the observations of all orders fall into one live set.
 pub fn orders(size: usize, rng: &mut Rng, out: &mut Out) {
